@@ -351,7 +351,7 @@ func run(id, tier string, replayFiles []string) int {
 				if u.Fuzz != "" && j.replay == "" {
 					args = []string{"-test.run", "^$", "-test.fuzz", u.Fuzz, "-test.fuzztime", fmt.Sprintf("%ds", j.n), "-test.fuzzcachedir", filepath.Join(dir, "fuzzcache"), "-test.timeout", fmt.Sprintf("%ds", timeout)}
 				} else if u.Rapid && j.replay == "" {
-					args = append(args, fmt.Sprintf("-rapid.checks=%d", j.n), fmt.Sprintf("-rapid.seed=%d", sseed), "-rapid.nofailfile", "-rapid.shrinktime=60s")
+					args = append(args, fmt.Sprintf("-rapid.checks=%d", j.n), fmt.Sprintf("-rapid.seed=%d", sseed), "-rapid.nofailfile", "-rapid.shrinktime=20s")
 				} else if u.Rapid {
 					args = append(args, "-rapid.nofailfile")
 				}
